@@ -172,8 +172,9 @@ func Load(repo, verif string, pkgPaths []string) (*Engine, error) {
 	}
 	sort.Strings(keys)
 	for _, k := range keys {
-		f := filepath.Join(repo, k, "verif_contracts.go")
-		if _, err := os.Stat(f); err == nil {
+		fs, _ := filepath.Glob(filepath.Join(repo, k, "verif_contracts*.go"))
+		sort.Strings(fs)
+		for _, f := range fs {
 			if err := e.CS.LoadFile(f, k); err != nil {
 				return nil, err
 			}
